@@ -345,6 +345,10 @@ SizeChecked(m) == ArgFmt(m) # <<>>
 PayCases(s, k, st) ==
    UNION {{Case(s, "pay", k, x, n, None) : n \in PaySizes \ {st.evs[x].sz}}
           : x \in {y \in 1..Len(st.evs) : SizeChecked(st.evs[y].m) /\ ~st.evs[y].j}}
+\* a jumbo event whose data is shorter than the u32 it must begin with (0..3 bytes): the size field of the
+\* jumbo payload says so, the events that follow are intact
+JumboSizeCases(s, k, st) == {Case(s, "jsz", k, x, n, None) : x \in {y \in 1..Len(st.evs) : st.evs[y].j}, n \in 0..3}
+
 \* (q = 0: u32 id and the label as a normal payload of 8 bytes; q = 1: the very bytes a jumbo event stores,
 \*  u32 size, u32 id, terminated label, as a normal payload of 12 bytes)
 NoJumboCases(s, k, st) == {Case(s, "nojumbo", k, x, q, None) : x \in {y \in 1..Len(st.evs) : st.evs[y].j}, q \in {0, 1}}
@@ -355,6 +359,7 @@ CasesOf(s) ==
    \cup UNION {MetaCases(s, k, T[k].meta) \cup ReqCases(s, k, T[k].meta) \cup JsonCases(s, k)
                \cup TruncCases(s, k, T[k]) \cup SwapCases(s, k, T[k]) \cup ClockCases(s, k, T[k]) \cup HdrCases(s, k, T[k])
                \cup McvCases(s, k, T[k]) \cup PayCases(s, k, T[k]) \cup NoJumboCases(s, k, T[k])
+               \cup JumboSizeCases(s, k, T[k])
                : k \in 1..Len(T)}
 
 SwapAt(evs, x) == [y \in 1..Len(evs) |-> IF y = x THEN evs[x + 1] ELSE IF y = x + 1 THEN evs[x] ELSE evs[y]]
@@ -376,6 +381,8 @@ Apply(T, c) ==
      [] kind = "pay" ->
           LET e == T[k].evs[p] IN
           [T EXCEPT ![k].evs = [T[k].evs EXCEPT ![p] = [e EXCEPT !.sz = q, !.a = ArgsFor(e.m, e.a, q)]]]
+     [] kind = "jsz" ->
+          [T EXCEPT ![k].evs = [T[k].evs EXCEPT ![p] = [T[k].evs[p] EXCEPT !.sz = 4 + q, !.a = <<>>]]]
      [] kind = "nojumbo" ->      \* the same content as a normal event: u32 id, label padded to 4 bytes
           [T EXCEPT ![k].evs = [T[k].evs EXCEPT ![p] = [T[k].evs[p] EXCEPT !.j = FALSE, !.sz = IF q = 1 THEN 12 ELSE 8]]]
 
@@ -459,12 +466,13 @@ WrongSizeRejected ==
       /\ SizeRefused(m, cCase[5]) => cRes = "reject"
       /\ ~SizeRefused(m, cCase[5]) => cRes = "ok"
 NoJumboRejected == (Done /\ Kind = "nojumbo") => cRes = "reject"
+JumboSizeRejected == (Done /\ Kind = "jsz") => cRes = "reject"
 \* nothing the family contains depends on an unspecified step of the reference semantics
 NoUnspecStep == ~unspec
 
 Props == /\ SeedsAreValid /\ TruncAlwaysRejected /\ TruncOfPlainSeedsRejected /\ SwapAlwaysRejected /\ HdrAlwaysRejected
          /\ JsonAlwaysRejected /\ MandatoryRejected /\ BadRequireRejected /\ NotRequiredRejected
-         /\ UnknownRejected /\ WrongSizeRejected /\ NoJumboRejected
+         /\ UnknownRejected /\ WrongSizeRejected /\ NoJumboRejected /\ JumboSizeRejected
 
 -----------------------------------------------------------------------------
 (* Export *)
